@@ -424,6 +424,7 @@ func (s *httpServer) doPauseTopic(w http.ResponseWriter, req *http.Request, ps h
 		s.nsqd.logf(LOG_ERROR, "failure in %s - %s", req.URL.Path, err)
 		return nil, http_api.Err{500, "INTERNAL_ERROR"}
 	}
+	verifPoint("pause:before-lock")
 
 	// pro-actively persist metadata so in case of process failure
 	// nsqd won't suddenly (un)pause a topic
@@ -495,6 +496,7 @@ func (s *httpServer) doPauseChannel(w http.ResponseWriter, req *http.Request, ps
 		s.nsqd.logf(LOG_ERROR, "failure in %s - %s", req.URL.Path, err)
 		return nil, http_api.Err{500, "INTERNAL_ERROR"}
 	}
+	verifPoint("pause:before-lock")
 
 	// pro-actively persist metadata so in case of process failure
 	// nsqd won't suddenly (un)pause a channel
